@@ -247,7 +247,12 @@ def run(ctx, idx):
             why = "conversion runs unconditionally: MPilot 3 files are rewritten too"
         elif isinstance(guard, ast.BoolOp) and isinstance(guard.op, ast.Or) and len(guard.values) == 2:
             v0, v1 = guard.values
-            a = isinstance(v0, ast.Compare) and K.src(v0).endswith(".version == 2")
+            a = isinstance(v0, ast.Compare) and len(v0.ops) == 1 and isinstance(v0.ops[0], ast.Eq) and K.src(v0.left).endswith(".version")
+            if a:
+                try:
+                    a = idx.const(fs.module, v0.comparators[0], fs) == 2
+                except Exception:
+                    a = False
             b = isinstance(v1, ast.Call) and isinstance(v1.func, ast.Name) and v1.func.id == "any" and "in EEMS_COMMANDS" in K.src(v1) and ".command in" in K.src(v1)
             ok = a and b
             why = "version == 2 or any command name is a table key" if ok else "guard is `%s`" % K.src(guard)
@@ -305,7 +310,20 @@ def run(ctx, idx):
                 if isinstance(e, ast.Constant):
                     return e.value
                 if isinstance(e, ast.Name):
+                    if e.id not in env:
+                        try:
+                            c_ = idx.const(pmod, e, pp)  # a module-level constant
+                        except Exception:
+                            c_ = None
+                        if isinstance(c_, (int, bool, str)):
+                            return c_
                     return env.get(e.id, ("?", e.id))
+                if isinstance(e, ast.Attribute) and e.attr != "eems_v2":
+                    try:
+                        c_ = idx.const(pmod, e, pp)  # a class-level constant
+                    except Exception:
+                        c_ = None
+                    return c_ if isinstance(c_, (int, bool, str)) else ("?",)
                 if isinstance(e, ast.Attribute) and e.attr == "eems_v2":
                     return flag
                 if isinstance(e, ast.UnaryOp) and isinstance(e.op, ast.Not):
